@@ -417,18 +417,19 @@ func c16Store(c *Ctx, r *Report, rule string) {
 // account under its resolved name with the resolved password of the same entry, no account for a name that
 // resolves to nothing.
 func c16Resolve(c *Ctx, r *Report, rule string) {
-	r.rule(rule, "accounts after placeholder resolution (evaluation of Provision on a concrete credential table with placeholders in names and passwords): the authenticator's map holds exactly resolved name -> resolved password of the same entry, and no account for a name resolving to the empty string", 1)
+	r.rule(rule, "accounts after placeholder resolution (evaluation of Provision on a concrete credential table with placeholders in names and passwords): the authenticator's map holds exactly resolved name -> resolved password of the same entry (environment and file placeholders alike: the global replacer, not one made WithoutFile()), and no account for a name resolving to the empty string", 1)
 	fnName := "modules/l4socks.(*Socks5Handler).Provision"
 	fn := c.Fn(fnName)
 	if fn == nil {
 		r.bad(rule, fnName, "exists", "-", "function not found")
 		return
 	}
-	resolve := map[string]string{"{env.U}": "alice", "{env.P}": "pw1", "{env.NONE}": ""}
+	resolve := map[string]string{"{env.U}": "alice", "{env.P}": "pw1", "{env.NONE}": "", "{file./run/secrets/pw}": "pw3"}
 	tables := []map[string]string{
 		{"{env.U}": "{env.P}", "bob": "pw2", "{env.NONE}": "x"},
 		{"{env.U}": "secret"},
 		{"carol": "{env.P}"},
+		{"dave": "{file./run/secrets/pw}"}, // a password kept in a file: resolved by the global replacer, empty for one made WithoutFile()
 	}
 	for ti, cfg := range tables {
 		want := map[string]string{}
@@ -459,6 +460,9 @@ func c16Resolve(c *Ctx, r *Report, rule string) {
 			switch {
 			case strings.HasSuffix(callee, "Replacer).ReplaceAll"):
 				if args[1].K == "str" && args[1].Known {
+					if args[0].Desc == "replacer without file" && strings.HasPrefix(args[1].S, "{file.") {
+						return symStr(""), true // unknown to that replacer: replaced by the empty string
+					}
 					if x, ok := resolve[args[1].S]; ok {
 						return symStr(x), true
 					}
@@ -466,7 +470,11 @@ func c16Resolve(c *Ctx, r *Report, rule string) {
 				}
 			case callee == "fmt.Errorf":
 				return SV{K: "ref", Known: true, Desc: "provisionError"}, true
-			case strings.HasSuffix(callee, "caddy/v2.NewReplacer"), strings.HasSuffix(callee, ".Logger"), callee == "net.ParseIP":
+			case strings.HasSuffix(callee, "caddy/v2.NewReplacer"):
+				return SV{K: "ref", Known: true, Desc: "global replacer"}, true
+			case strings.HasSuffix(callee, "Replacer).WithoutFile"):
+				return SV{K: "ref", Known: true, Desc: "replacer without file"}, true
+			case strings.HasSuffix(callee, ".Logger"), callee == "net.ParseIP":
 				return symOpaque(shortCallee(callee)), true
 			case strings.HasPrefix(callee, "github.com/things-go/go-socks5."):
 				return SV{K: "ref", Known: true, Desc: shortCallee(callee)}, true
